@@ -508,7 +508,12 @@ fn fromflags_main(path: &str) -> i32 {
     };
     crate::run::install_panic_hook();
     let flags: Vec<String> = v["flags"].as_array().map(|a| a.iter().map(|x| x.as_str().unwrap_or("").to_string()).collect()).unwrap_or_default();
-    let (mut st, text) = stage_flags(&flags, v["gen"].as_bool().unwrap_or(true));
+    let gen = v["gen"].as_bool().unwrap_or(true);
+    // builder path in a child as well: the orchestrating process stays small (no in-process generation)
+    let (mut st, text) = match v["setters"].as_array() {
+        Some(setters) => stage_builder(setters, gen),
+        None => stage_flags(&flags, gen),
+    };
     st["text"] = json!(text);
     let out = v["out"].as_str().unwrap_or("");
     if std::fs::write(out, st.to_string()).is_err() {
@@ -518,10 +523,15 @@ fn fromflags_main(path: &str) -> i32 {
 }
 
 fn run_child(dir: &str, id: &str, tag: &str, flags: &[String], gen: bool) -> (Value, Option<String>) {
+    run_child_job(dir, id, tag, json!({"flags": flags, "gen": gen}))
+}
+
+fn run_child_job(dir: &str, id: &str, tag: &str, mut job: Value) -> (Value, Option<String>) {
     let jf = format!("{dir}/{id}.{tag}.job.json");
     let of = format!("{dir}/{id}.{tag}.out.json");
     let _ = std::fs::remove_file(&of);
-    if std::fs::write(&jf, json!({"flags": flags, "gen": gen, "out": of}).to_string()).is_err() {
+    job["out"] = json!(of);
+    if std::fs::write(&jf, job.to_string()).is_err() {
         return (json!({"status": "tool_error", "msg": "cannot write child job"}), None);
     }
     // (the binary may be replaced by a concurrent rebuild: prefer the path we were told)
@@ -576,7 +586,11 @@ fn run_job(dir: &str, job: &Value) -> Value {
         run_child(dir, &id, "a", &f0, gen)
     } else {
         let setters = job["setters"].as_array().cloned().unwrap_or_default();
-        stage_builder(&setters, gen)
+        if std::env::var_os("BVDRIVE_INPROC").is_some() {
+            stage_builder(&setters, gen)
+        } else {
+            run_child_job(dir, &id, "a", json!({"setters": setters, "gen": gen}))
+        }
     };
     if a["status"] != "ok" {
         return json!({"id": id, "a": a});
